@@ -12,7 +12,7 @@ obtained from `⟨0, 1, 1⟩` by reading runes of `src` one after the other with
 
 `scan T src st = (tok, st')` is one call of `Scan()`; `scanN T src k st` the first `k`
 tokens; `scanStates T src k` the cursor of a new lexer after `k` calls and
-`scanTok T src k` the token returned by call number `k` (from 0).
+`scanTokAt T src k` the token returned by call number `k` (from 0).
 -/
 namespace Gocc
 
@@ -72,7 +72,7 @@ theorem C08_eof_sticky_scanN (T : LexTables) (src : List Nat) (st : LexSt) (h : 
 theorem C08_eof_sticky_stream (T : LexTables) (src : List Nat) (k : Nat)
     (h : (scanStates T src k).pos ≥ src.length) (j : Nat) (hj : k ≤ j) :
     scanStates T src j = scanStates T src k ∧
-    scanTok T src j =
+    scanTokAt T src j =
       { typ := tokEOF, litStart := 0, litEnd := 0, offset := (scanStates T src k).pos,
         line := (scanStates T src k).line, col := (scanStates T src k).col } := by
   obtain ⟨d, rfl⟩ := Nat.exists_eq_add_of_le hj
@@ -80,11 +80,11 @@ theorem C08_eof_sticky_stream (T : LexTables) (src : List Nat) (k : Nat)
     unfold scanStates
     rw [scanStatesFrom_add]; exact scanStatesFrom_eof T src _ h d
   refine ⟨hs, ?_⟩
-  unfold scanTok; rw [hs, scan_eof T src _ h]
+  unfold scanTokAt; rw [hs, scan_eof T src _ h]
 
-/-- `scanN` is the list of the tokens `scanTok 0, scanTok 1, ...` -/
+/-- `scanN` is the list of the tokens `scanTokAt 0, scanTokAt 1, ...` -/
 theorem C08_scanN_stream (T : LexTables) (src : List Nat) (k i : Nat) (hi : i < k) :
-    (scanN T src k newLexer)[i]? = some (scanTok T src i) :=
+    (scanN T src k newLexer)[i]? = some (scanTokAt T src i) :=
   scanN_getElem? T src k newLexer i hi
 
 /-- (C08d) the whole token stream of a new lexer tiles the input: the stream starts at offset 0,
@@ -94,15 +94,15 @@ theorem C08_scanN_stream (T : LexTables) (src : List Nat) (k i : Nat) (hi : i < 
 theorem C08_scanN_tiles {T : LexTables} (hT : TWF T) (src : List Nat) (k : Nat) :
     scanStates T src 0 = ⟨0, 1, 1⟩ ∧
     Reach src (scanStates T src k) ∧
-    Reach src ⟨(scanTok T src k).offset, (scanTok T src k).line, (scanTok T src k).col⟩ ∧
-    (scanStates T src k).pos ≤ (scanTok T src k).offset ∧
-    (scanTok T src k).offset ≤ (scanStates T src (k + 1)).pos ∧
+    Reach src ⟨(scanTokAt T src k).offset, (scanTokAt T src k).line, (scanTokAt T src k).col⟩ ∧
+    (scanStates T src k).pos ≤ (scanTokAt T src k).offset ∧
+    (scanTokAt T src k).offset ≤ (scanStates T src (k + 1)).pos ∧
     (scanStates T src (k + 1)).pos ≤ src.length ∧
-    ((scanTok T src k).litStart < (scanTok T src k).litEnd →
-        (scanTok T src k).litStart = (scanTok T src k).offset ∧
-        (scanTok T src k).litEnd = (scanStates T src (k + 1)).pos) ∧
-    (¬ (scanTok T src k).litStart < (scanTok T src k).litEnd →
-        (scanTok T src k).offset = (scanStates T src (k + 1)).pos) ∧
+    ((scanTokAt T src k).litStart < (scanTokAt T src k).litEnd →
+        (scanTokAt T src k).litStart = (scanTokAt T src k).offset ∧
+        (scanTokAt T src k).litEnd = (scanStates T src (k + 1)).pos) ∧
+    (¬ (scanTokAt T src k).litStart < (scanTokAt T src k).litEnd →
+        (scanTokAt T src k).offset = (scanStates T src (k + 1)).pos) ∧
     ((scanStates T src k).pos < src.length →
         (scanStates T src k).pos < (scanStates T src (k + 1)).pos) := by
   have hr := scanStates_reach hT src k
